@@ -123,12 +123,7 @@ Section StepsProof.
              | XErr None => Do (SSetJoinAccept {| ja_appnonce := appnonce; ja_netid := N.land (cfg_netid cfg) 4294967295;
                                                    ja_devaddr := devaddr_of_u32 (if d_addr dev =? 0 then newaddr else d_addr dev);
                                                    ja_rx1droffset := 0; ja_rx2dr := 5; ja_rxdelay := 1 |})
-                 (fun _ => send_prog E D
-                    {| d_eui := d_eui dev; d_addr := if d_addr dev =? 0 then newaddr else d_addr dev; d_appkey := d_appkey dev;
-                       d_appskey := appskey_from_nonces E (d_appkey dev) appnonce (cfg_netid cfg) (jr_devnonce (jr f));
-                       d_nwkskey := nwkskey_from_nonces E (d_appkey dev) appnonce (cfg_netid cfg) (jr_devnonce (jr f));
-                       d_appeui := d_appeui dev; d_state := d_state dev; d_fup := 0; d_fdn := 0; d_relaxed := d_relaxed dev;
-                       d_keywarn := d_keywarn dev; d_nonces := d_nonces dev |} rx 0 0 [])
+                 (fun _ => send_prog E D dev rx 0 0 [])
              | _ => Halt [] end)) []
       = match l_update_device st1
            {| d_eui := d_eui dev; d_addr := if d_addr dev =? 0 then newaddr else d_addr dev; d_appkey := d_appkey dev;
@@ -141,11 +136,7 @@ Section StepsProof.
           send_for E D (l_set_join_accept st2 {| ja_appnonce := appnonce; ja_netid := N.land (cfg_netid cfg) 4294967295;
                                                 ja_devaddr := devaddr_of_u32 (if d_addr dev =? 0 then newaddr else d_addr dev);
                                                 ja_rx1droffset := 0; ja_rx2dr := 5; ja_rxdelay := 1 |})
-            {| d_eui := d_eui dev; d_addr := if d_addr dev =? 0 then newaddr else d_addr dev; d_appkey := d_appkey dev;
-               d_appskey := appskey_from_nonces E (d_appkey dev) appnonce (cfg_netid cfg) (jr_devnonce (jr f));
-               d_nwkskey := nwkskey_from_nonces E (d_appkey dev) appnonce (cfg_netid cfg) (jr_devnonce (jr f));
-               d_appeui := d_appeui dev; d_state := d_state dev; d_fup := 0; d_fdn := 0; d_relaxed := d_relaxed dev;
-               d_keywarn := d_keywarn dev; d_nonces := d_nonces dev |} rx 0 0
+            dev rx 0 0
         end).
     { intros fuel' st1 Hf'. destruct fuel' as [|[|fuel']]; try lia. cbn [prun exec app].
       destruct (l_update_device st1 _) as [st2 [e|]]; cbn [prun exec app]; [reflexivity|].
@@ -256,7 +247,7 @@ Section StepsProof.
     Qed.
 
     (* reserving the downlink counter keeps the uplink invariant *)
-    Lemma next_keeps st st1 c : upinv st -> l_next_fdn st = (st1, Some c) ->
+    Lemma next_keeps st key st1 c : upinv st -> l_next_fdn st key = (st1, Some c) ->
       upinv st1 /\ exists r1, ds_row st1 = Some r1 /\ d_fdn r1 = (c + 1) mod 65536.
     Proof.
       intros (Hfb & Hn & r' & Hr & Hs & Hle & Hin) U.
@@ -277,7 +268,7 @@ Section StepsProof.
       split; [exact Hinv|]. split; [exact I|]. split; [|intros _; cbn; tauto].
       cbn [exec]. destruct (l_next_fdn st) as [st1 [cn|]] eqn:U.
       2:{ apply next_none in U. destruct U as [-> _]. cbn. tauto. }
-      destruct (next_keeps st st1 cn Hinv U) as (H1 & r1 & R1 & F1).
+      destruct (next_keeps st _ st1 cn Hinv U) as (H1 & r1 & R1 & F1).
       destruct (encode_message E (d_nwkskey dev) (d_appskey dev) (downlink_frame dev p cn)) as [buf|e|]; cbn [always]; try tauto.
       split; [exact H1|]. split; [exact I|].
       assert (H2 : upinv (l_set_sent_time st1 created now (d_fup dev))) by (apply (benign_keeps st1 (SSetSentTime created now (d_fup dev))); auto).
@@ -450,7 +441,7 @@ Section StepsProof.
       cbn [exec]. destruct (l_next_fdn st) as [st1 [cn|]] eqn:U; rewrite ?app_nil_r.
       2:{ apply next_none in U. destruct U as [-> _]. cbn. split; [exact HinvD | now apply Fin]. }
       destruct Hinv as (Hu & r' & Hr & Ha & Hf0).
-      destruct (next_keeps st st1 cn Hu U) as (U1 & r1 & R1 & F1).
+      destruct (next_keeps st _ st1 cn Hu U) as (U1 & r1 & R1 & F1).
       assert (Hcn : cn = d_fdn r0).
       { apply next_row in U. destruct U as (rr & R0 & Hc & _). rewrite Hr in R0. injection R0 as <-. congruence. }
       subst cn.
